@@ -91,9 +91,41 @@ fn det_case(src: String, t: &mut Tape, note: &str) -> Case {
 
 // A program comparing / printing / destructuring objects with many keys and
 // several simultaneous differences, mismatches and faults.
+// Failures with several equally eligible culprits (two or more names each
+// repeated in a parameter list or pattern, several missing properties,
+// several ill-typed entries): which one is reported must not vary from run
+// to run.
+fn multi_culprit_program(t: &mut Tape) -> String {
+    let pool = ["red", "green", "blue", "cyan", "k", "v", "x1", "y2"];
+    let n = 2 + t.pick(3);
+    let mut names: Vec<&str> = vec![];
+    for i in 0..n {
+        names.push(pool[i]);
+        names.push(pool[i]);
+    }
+    for _ in 0..t.pick(3) {
+        names.push(pool[n + t.pick(pool.len() - n)]);
+    }
+    for i in (1..names.len()).rev() {
+        let j = t.pick(i + 1);
+        names.swap(i, j);
+    }
+    let vals: Vec<String> = (0..names.len()).map(|i| i.to_string()).collect();
+    match t.pick(6) {
+        0 => format!("print(\"start\")\nfn paint({}) {{\n    return 0\n}}\nprint(paint({}))\n", names.join(", "), vals.join(", ")),
+        1 => format!("print(\"start\")\n[{}] := [{}]\n", names.join(", "), vals.join(", ")),
+        2 => format!("print(\"start\")\n{{{}}} := {{}}\n", names.iter().enumerate().map(|(i, n)| format!("\"p{i}\": {n}")).collect::<Vec<_>>().join(", ")),
+        3 => format!("print(\"start\")\npaint := fn ({}) {{\n    return 0\n}}\nprint(paint({}))\n", names.join(", "), vals.join(", ")),
+        4 => format!("print(\"start\")\nfor [{}] in [[{}]] {{\n    print(0)\n}}\n", names.join(", "), vals.join(", ")),
+        _ => format!("print(\"start\")\no := {{{}}}\n{{{}}} := o\n", names.iter().take(2).map(|n| format!("\"{n}\": 1")).collect::<Vec<_>>().join(", "), pool.iter().map(|n| format!("\"{n}\": w_{n}")).collect::<Vec<_>>().join(", ")),
+    }
+}
+
 fn many_key_program(t: &mut Tape) -> String {
-    let keys = ["alpha", "b", "c3", "delta", "e", "foxtrot", "g", "h8", "india", "j", "kilo", "l", "mike", "n", "oscar", "p"];
-    let n = 8 + t.pick(8);
+    let base = ["alpha", "b", "c3", "delta", "e", "foxtrot", "g", "h8", "india", "j", "kilo", "l", "mike", "n", "oscar", "p"];
+    // One program in four has 33..130 keys (generated names follow the base ones).
+    let n = if t.chance(1, 4) { [33usize, 64, 65, 100, 130][t.pick(5)] } else { 8 + t.pick(8) };
+    let keys: Vec<String> = (0..n).map(|i| if i < base.len() { base[i].to_string() } else { format!("q{:03}_{}", (i * 37) % 1000, ["x", "yy", "é"][i % 3]) }).collect();
     let mut a = vec![];
     let mut b = vec![];
     for k in keys.iter().take(n) {
@@ -201,6 +233,32 @@ fn print_checks(ctx: &Ctx) {
         ("print(-0)\nprint(007)\nprint(true)\nprint(null)\nprint(\"\")\n", "0\n7\ntrue\n<null>\n\n"),
     ];
     let mut cases = vec![];
+    // Large containers (renderings of 0.3 .. 8 KiB) shared at several depths
+    // of one printed value, against the renderer and against a value built
+    // from separate copies.
+    let ob = |v: Vec<(&str, V)>| -> V { V::Obj(v.into_iter().map(|(k, x)| (k.to_string(), x)).collect()) };
+    for n in [20i64, 90, 150, 600] {
+        for records in [false, true] {
+            let (build, big): (String, V) = if records {
+                (format!("rws := []\nfor [_, i] in 0 .. {n} {{\n    rws += [{{\"id\": i, \"tag\": \"r\"}}]\n}}\n"), V::List((0..n).map(|i| ob(vec![("id", V::Int(i)), ("tag", V::Str("r".to_string()))])).collect()))
+            } else {
+                (format!("rws := 0 .. {n}\n"), V::List((0..n).map(V::Int).collect()))
+            };
+            let shapes: Vec<(&str, V)> = vec![
+                ("[rws, [[rws]], {\"k\": rws}]", V::List(vec![big.clone(), V::List(vec![V::List(vec![big.clone()])]), ob(vec![("k", big.clone())])])),
+                ("{\"index\": {\"by_id\": {\"all\": rws}}, \"rows\": rws}", ob(vec![("index", ob(vec![("by_id", ob(vec![("all", big.clone())]))])), ("rows", big.clone())])),
+                ("[[[[rws]]], rws, [rws]]", V::List(vec![V::List(vec![V::List(vec![V::List(vec![big.clone()])])]), big.clone(), V::List(vec![big.clone()])])),
+            ];
+            for (expr, v) in shapes {
+                let mut exp = String::new();
+                render(&v, 0, &mut exp);
+                let copied = expr.replace("rws", "rws[:]");
+                let src = format!("{build}print({expr})\nprint({copied})\nprint({expr})\n");
+                ctx.label("print of a large container shared at several depths");
+                cases.push((Case{property: "C19".into(), kind: "print".into(), srcs: vec![src.into_bytes()], pred: Pred::Expect(Expect::ok(format!("{exp}\n{exp}\n{exp}\n").into_bytes())), note: format!("{n} {} shared at several depths, then as separate copies", if records { "records" } else { "ints" })}, true));
+            }
+        }
+    }
     for (src, exp) in extra {
         cases.push((Case{property: "C19".into(), kind: "print".into(), srcs: vec![src.as_bytes().to_vec()], pred: Pred::Expect(Expect::ok(exp.as_bytes().to_vec())), note: "print of shared / empty / deep values".into()}, true));
     }
@@ -238,7 +296,10 @@ pub fn run(ctx: &Ctx) {
     let cfg = gen::GenCfg::balanced();
     let big = gen::GenCfg::big();
     ctx.proptest_tapes("determinism", n, 700, Via::Cli, Some(&custom), |t| {
-        let src = if t.chance(1, 2) {
+        let src = if t.chance(1, 6) {
+            ctx.label("program failing with several eligible culprits");
+            multi_culprit_program(t)
+        } else if t.chance(1, 2) {
             ctx.label("many-key object program");
             many_key_program(t)
         } else {
